@@ -86,6 +86,24 @@ pub fn run(cfg: &RunCfg) -> PropRun {
     let mut run = PropRun::default();
     run.rule = "pairs (A, B) of Range values as in C07, B with 1..4 alternatives (often inside A, touching A's endpoints inclusively/exclusively, prerelease bounds). Oracle: pointwise on ~40 probes per bound: within(A\\B) == within(A)&&!within(B) for every alternative of B; releases: sat(A\\B) == sat(A)&&!sat(B); None => exactly nothing of A is outside B (exact interval computation); partition: every probe within A is in exactly one of A∩B, A\\B and none outside A is in either. Non-trivial = >=2 alternatives of B overlap A, or B cuts A in two, or B shares a bound version with A; distinct by operand texts.".into();
     run.assumptions = vec!["bounds membership of a Range value is read from its canonical Display".into(), "satisfies() of prerelease versions on the result is not asserted (flipped bounds create new tagged endpoints)".into()];
+    // every ordered pair (A single interval, B single interval or a union of two) over the adjacent chain
+    let ivs = crate::props::c09::structured_intervals();
+    let n = ivs.len();
+    let ir = &ivs;
+    let out = enumerate(
+        cfg,
+        "structured-pairs",
+        move |shard, nsh| (0..n).filter(move |i| i % nsh == shard).flat_map(move |i| (0..n).map(move |j| (i, j))),
+        move |(i, j), st| {
+            use crate::gen::ranges::Expr;
+            check_pair(&PairCase { a: Expr::Leaf(ir[*i].clone()), b: Expr::Leaf(ir[*j].clone()), extra: vec![] }, st)?;
+            // B with a second alternative taken from the chain in step with (i, j)
+            let k = (*i * 7 + *j * 3) % n;
+            check_pair(&PairCase { a: Expr::Leaf(ir[*i].clone()), b: Expr::Leaf(format!("{} || {}", ir[*j], ir[k])), extra: vec![] }, st)
+        },
+    );
+    run.absorb(out);
+    run.stats.exhaustive_subspaces.push(json!({"name": "A x B over single intervals of an adjacent 6-version chain (all bound kinds), B also as a two-alternative union", "intervals": n, "ordered_pairs": n * n}));
     let out = campaign(cfg, ID, "pairs", cfg.pick(400_000, 4_000_000), || pair_strategy(1, 4), check_pair);
     run.absorb(out);
     let multi = run.stats.class_count("B-multi-alternative");
@@ -93,7 +111,18 @@ pub fn run(cfg: &RunCfg) -> PropRun {
     run
 }
 
-pub fn replay(_campaign: &str, case: &Value) -> Result<(), Failure> {
-    let c: PairCase = serde_json::from_value(case.clone()).map_err(|e| Failure::new("bad-replay", e.to_string()))?;
+pub fn replay(campaign: &str, case: &Value) -> Result<(), Failure> {
+    let bad = |e: serde_json::Error| Failure::new("bad-replay", e.to_string());
+    if campaign == "structured-pairs" {
+        use crate::gen::ranges::Expr;
+        let (i, j): (usize, usize) = serde_json::from_value(case.clone()).map_err(bad)?;
+        let ivs = crate::props::c09::structured_intervals();
+        let n = ivs.len();
+        let mut st = Stats::default();
+        check_pair(&PairCase { a: Expr::Leaf(ivs[i].clone()), b: Expr::Leaf(ivs[j].clone()), extra: vec![] }, &mut st)?;
+        let k = (i * 7 + j * 3) % n;
+        return check_pair(&PairCase { a: Expr::Leaf(ivs[i].clone()), b: Expr::Leaf(format!("{} || {}", ivs[j], ivs[k])), extra: vec![] }, &mut st);
+    }
+    let c: PairCase = serde_json::from_value(case.clone()).map_err(bad)?;
     check_pair(&c, &mut Stats::default())
 }
